@@ -669,6 +669,22 @@ func (vc *VC) lockProtocolCheck(fr *Frame, st *State, c *ssa.CallCommon, callee 
 // their source-level access paths (see lockCall). Map updates and deletes through a guarded map
 // field count as writes.
 func (vc *VC) guardCheck(fr *Frame, st *State, addr ssa.Value, write bool, pos token.Position) {
+	if write && vc.topCon != nil && len(vc.topCon.NoWrite) > 0 && (fr.top || (vc.topFn != nil && isNestedIn(fr.fn, vc.topFn))) {
+		if p := accessPath(addr); p != "" {
+			for _, nw := range vc.topCon.NoWrite {
+				if p == nw {
+					name := fmt.Sprintf("%s#nowrite:%s", funcKey(vc.topFn), nw)
+					if n := vc.nameCount[name]; n > 0 {
+						vc.nameCount[name] = n + 1
+						name += fmt.Sprintf("#%d", n+1)
+					} else {
+						vc.nameCount[name] = 1
+					}
+					vc.oblige(st, "assert", name, "the contract forbids writes to "+nw+" (assignment, map insert or delete) in this function", pos, "false")
+				}
+			}
+		}
+	}
 	if len(vc.eng.cs.Guards) == 0 || vc.topCon == nil || !vc.topCon.Flags["lockset"] {
 		return
 	}
